@@ -36,6 +36,7 @@ func init() {
 			return nil
 		},
 		"vfExecLog":    vfExecLog,
+		"vfWritten":    vfWritten,
 		"vfExecSet":    vfExecSet,
 		"vfTerminates": vfTerminates,
 		"vfTypeCheck":  vfTypeCheck,
